@@ -12,7 +12,7 @@ Spec.Forest / Spec.Members stepped with the implementation's own ids, and the
 executable WfRaw evaluated on the real dump.  The three parts pick their share
 of the oracle's findings by tag.
 """
-import os, random, subprocess, time
+import os, random, subprocess, sys, time
 from concurrent.futures import ThreadPoolExecutor
 from common import *
 import runner
@@ -395,16 +395,241 @@ def histories(ctx):
     return scripts, hist, meta
 
 
+# ------------------------------------------------------------------ bounded-exhaustive exploration (BFS)
+# The Lean driver mode `v1explore` (lean/EngineModel/Driver/Cmds/CratesV1Explore.lean) searches the state space
+# of the Model breadth first over DISTINCT states (raw rows + handle bindings) and prints, for every expanded
+# state, one script: shortest path from the empty library, `v1.save`, then EVERY operation of the alphabet, each
+# followed by an observation and `v1.restore`.  The scripts are schema-parametric (`create $SCHEMA mem`).
+BFS_MAX_HANDLES = 4
+# With 4 handles and the names {a, b, "", x;y} the Model has 3441 reachable states; the last new one appears at
+# depth 8, so depth 9 expands every reachable state: the exploration is complete for that alphabet.
+BFS_CLOSURE_DEPTH = 9
+BFS_MAIN_SCHEMAS = ["schema_1_6_0", "schema_1_9_1", "schema_1_18_0_os"]
+_EXPLORE_CACHE = {}
+
+
+def bfs_depths(tier):
+    """-> {schema: depth}"""
+    if tier == "quick":
+        return {sch: 5 for sch in QUICK_SCHEMAS}
+    return {sch: (BFS_CLOSURE_DEPTH if sch in BFS_MAIN_SCHEMAS else 6) for sch in V1_SCHEMAS}
+
+
+def explore_scripts(depth, max_handles=BFS_MAX_HANDLES):
+    """-> (scripts with `$SCHEMA` in place, one per expanded state, first line `#mode cratesv1`; stats)"""
+    key = (depth, max_handles, file_sha(MODELDRV))
+    if key in _EXPLORE_CACHE:
+        return _EXPLORE_CACHE[key]
+    cdir = os.path.join(BUILD, "cache")
+    path = os.path.join(cdir, "v1explore-d%d-h%d-%s.txt" % (depth, max_handles, key[2][:16]))
+    text = None
+    if os.path.exists(path):
+        with open(path) as f:
+            text = f.read()
+        if not text.rstrip("\n").rsplit("\n", 1)[-1].startswith("#end "):
+            text = None
+    if text is None:
+        p = subprocess.run([MODELDRV], input="#mode v1explore\nexplore %d %d\n" % (depth, max_handles),
+                           stdout=subprocess.PIPE, stderr=subprocess.PIPE, text=True, timeout=1800)
+        text = p.stdout
+        if p.returncode != 0 or not text.rstrip("\n").rsplit("\n", 1)[-1].startswith("#end "):
+            raise RuntimeError("v1explore failed rc=%d: %s %s" % (p.returncode, text[-300:], p.stderr[-300:]))
+        os.makedirs(cdir, exist_ok=True)
+        tmp = "%s.%d.tmp" % (path, os.getpid())
+        with open(tmp, "w") as f:
+            f.write(text)
+        os.replace(tmp, path)
+    scripts, depths, stats = [], [], {}
+    for l in text.split("\n"):
+        if l.startswith("#script "):
+            scripts.append([])
+            depths.append(int(l.split("depth=")[1]))
+        elif l.startswith("#end "):
+            kv = dict(t.split("=", 1) for t in l.split()[1:])
+            stats = {"states": int(kv["states"]), "expanded": int(kv["expanded"]), "edges": int(kv["edges"]),
+                     "new_states_per_depth": [int(x) for x in kv["levels"].split(",")]}
+        elif l and scripts:                     # (the first output line is the `skip` answering `#mode v1explore`)
+            scripts[-1].append(sys.intern(l))
+    if len(scripts) != stats.get("expanded") or sum(s.count("v1.restore") for s in scripts) != stats.get("edges"):
+        raise RuntimeError("v1explore output inconsistent with its #end line")
+    per = {}
+    for d, s in zip(depths, scripts):
+        e = per.setdefault(d, [0, 0])
+        e[0] += 1
+        e[1] += s.count("v1.restore")
+    stats.update({"depth": depth, "max_handles": max_handles, "script_depth": depths,
+                  "expanded_per_depth": [per[d][0] for d in sorted(per)],
+                  "edges_per_depth": [per[d][1] for d in sorted(per)],
+                  "complete": stats["new_states_per_depth"][-1] == 0})
+    _EXPLORE_CACHE[key] = (scripts, stats)
+    return scripts, stats
+
+
+def bfs_histories(ctx):
+    """-> (scripts, meta, stats): the exploration scripts instantiated for every schema of the tier.
+    meta[i] = (schema, "bfs", depth of the expanded state)."""
+    depths = bfs_depths(ctx.tier)
+    scripts, meta = [], []
+    stats = {"max_handles": BFS_MAX_HANDLES, "depth": depths, "states": 0, "expanded": 0, "edges": 0,
+             "per_depth": {}, "complete_on": []}
+    for sch, d in depths.items():
+        tmpl, st = explore_scripts(d, BFS_MAX_HANDLES)
+        create = "create %s mem" % sch
+        for s, sd in zip(tmpl, st["script_depth"]):
+            scripts.append([create if l == "create $SCHEMA mem" else l for l in s])
+            meta.append((sch, "bfs", sd))
+        for k in ("states", "expanded", "edges"):
+            stats[k] += st[k]
+        stats["per_depth"][str(d)] = {k: st[k] for k in ("states", "expanded", "edges", "new_states_per_depth",
+                                                           "expanded_per_depth", "edges_per_depth", "complete")}
+        if st["complete"]:
+            stats["complete_on"].append(sch)
+    return scripts, meta, stats
+
+
+def bfs_pack(scripts, target):
+    """Concatenate consecutive scripts into chunks of about `target` lines (one process per chunk: `create`
+    resets the harness, the Model and the oracle).  -> list of lists of script indices"""
+    chunks, cur, n = [], [], 0
+    for i, s in enumerate(scripts):
+        cur.append(i)
+        n += len(s)
+        if n >= target:
+            chunks.append(cur)
+            cur, n = [], 0
+    if cur:
+        chunks.append(cur)
+    return chunks
+
+
+def bfs_execute(scripts, target=None):
+    """execute() for exploration scripts, several states per process.  A state whose `create` line was not
+    answered `ok` by all three sides (an earlier state of its chunk crashed the harness, or killed the oracle
+    on a path step) is run again in a process of its own.  -> per script (harness, model, oracle) outputs"""
+    total = sum(len(s) for s in scripts)
+    target = target or min(6000, max(600, total // (NCPU * 8)))
+    chunks = bfs_pack(scripts, target)
+    big = [[l for i in c for l in scripts[i]] for c in chunks]
+    H, M, O = execute(big)
+    out = [None] * len(scripts)
+    again = []
+    for c, h, m, o in zip(chunks, H, M, O):
+        pos = 0
+        for k, i in enumerate(c):
+            n = len(scripts[i])
+            r = (h[pos:pos + n], m[pos:pos + n], o[pos:pos + n])
+            pos += n
+            if k > 0 and not (r[0][1] == "ok" and r[1][1] == "ok" and r[2][1] == "ok"):
+                again.append(i)
+            out[i] = r
+    if again:
+        h, m, o = execute([scripts[i] for i in again])
+        for k, i in enumerate(again):
+            out[i] = (h[k], m[k], o[k])
+    return out, {"processes": len(chunks), "rerun_alone": len(again)}
+
+
+def bfs_problems(script, hout, mout, oout):
+    """Every edge of an exploration script starts from the saved state, so every edge is judged on its own.
+    -> (divergences, violations); each carries a SELF-CONTAINED replay script: the path, `v1.save` and the one
+    failing edge (or the path prefix when a path step fails)."""
+    isave = script.index("v1.save")
+    n = isave + 1
+    divs, vios = [], []
+    div, vio = first_problem(script[:n], hout[:n], mout[:n], oout[:n])
+    if div:
+        div["script"] = script[:div["line"] + 1]
+        divs.append(div)
+    if vio:
+        vio["script"] = script[:vio["line"] + 1]
+        vios.append(vio)
+    if div or any(h.startswith("ub ") for h in hout[:n]):
+        return divs, vios               # the saved state itself is not the one the Model explored
+    head = script[:n]
+    for j in range(n, len(script) - 2, 3):
+        edge = script[j:j + 3]          # operation, observation, v1.restore
+        for k in range(3):
+            h, m = hout[j + k], mout[j + k]
+            if h != m:
+                divs.append({"line": n + k, "input": edge[k], "impl": h[:600], "model": m[:600],
+                             "script": head + edge[:k + 1]})
+                break
+            if h.startswith("ub "):
+                break                   # agreed undefined behaviour
+        for k in range(2):
+            if oout[j + k].startswith("violation"):
+                vios.append({"line": n + k, "tag": oout[j + k].split()[1], "op": op_kind(edge[0]),
+                             "text": oout[j + k][:600], "script": head + edge[:k + 1]})
+                break
+        if any(hout[j + k].startswith(("ub ", "skipped-after-crash", "missing-output")) for k in range(3)):
+            break                       # the real process is gone: the remaining edges were not run
+    return divs, vios
+
+
+BFS_KEEP = 200          # recorded problems per kind (all are counted)
+
+
+def run_bfs(ctx, distinct):
+    """Run the exploration scripts schema by schema (bounds the memory held in observations)."""
+    t0 = time.time()
+    scripts, meta, stats = bfs_histories(ctx)
+    divergences, violations, outcomes = [], [], {}
+    steps = ndiv = nvio = procs = rerun = 0
+    seen_d, seen_v = set(), set()
+    per_schema_wall = {}
+    for sch in stats["depth"]:
+        t1 = time.time()
+        idx = [i for i, m in enumerate(meta) if m[0] == sch]
+        group = [scripts[i] for i in idx]
+        res, info = bfs_execute(group)
+        procs += info["processes"]
+        rerun += info["rerun_alone"]
+        for s, (h, m, o) in zip(group, res):
+            for l, r in zip(s, h):
+                if l.startswith("v1.obs"):
+                    steps += 1
+                    distinct.add(r.split(" raw ", 1)[-1])
+                elif not l.startswith(("#", "create", "v1.")):
+                    k = op_kind(l) + ":" + (" ".join(r.split()[:2]) if r.startswith("throw") else r.split()[0])
+                    outcomes[k] = outcomes.get(k, 0) + 1
+            divs, vios = bfs_problems(s, h, m, o)
+            for d in divs:
+                k = (sch, tuple(d["script"]))
+                if k in seen_d:
+                    continue            # the same failing path prefix is shared by all states behind it
+                seen_d.add(k)
+                ndiv += 1
+                if len(divergences) < BFS_KEEP:
+                    d["schema"], d["bfs"] = sch, True
+                    divergences.append(d)
+            for v in vios:
+                k = (sch, tuple(v["script"]))
+                if k in seen_v:
+                    continue
+                seen_v.add(k)
+                nvio += 1
+                if len(violations) < BFS_KEEP or (v["op"], v["tag"]) not in {(x["op"], x["tag"]) for x in violations}:
+                    v["schema"], v["bfs"] = sch, True
+                    violations.append(v)
+        per_schema_wall[sch] = round(time.time() - t1, 1)
+    stats.update({"scripts": len(scripts), "steps": steps, "processes": procs, "rerun_alone": rerun,
+                  "divergences": ndiv, "violations": nvio, "wall_s": round(time.time() - t0, 1),
+                  "wall_s_per_schema": per_schema_wall})
+    return stats, divergences, violations, outcomes
+
+
 def run_all(ctx):
     key = (ctx.tier, ctx.seed)
     if key in _CACHE:
         return _CACHE[key]
     t0 = time.time()
+    distinct = set()
+    # 1. bounded-exhaustive exploration (its failing scripts are minimal: they come first)
+    bfs, divergences, violations, bfs_outcomes = run_bfs(ctx, distinct)
+    # 2. random histories
     scripts, hist, meta = histories(ctx)
     houts, mouts, oouts = execute(scripts)
-    divergences, violations = [], []
     steps = 0
-    distinct = set()
     outcome_hist = {}
     for s, h, m, o, (sch, prof) in zip(scripts, houts, mouts, oouts, meta):
         steps += sum(1 for l in s if l.startswith("v1.obs"))
@@ -423,8 +648,10 @@ def run_all(ctx):
             vio["schema"] = sch
             vio["script"] = s
             violations.append(vio)
-    res = {"scripts": len(scripts), "steps": steps, "distinct_raw_states": len(distinct), "hist": hist,
-           "outcomes": outcome_hist, "divergences": divergences, "violations": violations,
+    res = {"scripts": len(scripts) + bfs["scripts"], "steps": steps + bfs["steps"], "random_scripts": len(scripts),
+           "random_steps": steps, "distinct_raw_states": len(distinct), "hist": hist,
+           "outcomes": outcome_hist, "bfs_outcomes": bfs_outcomes, "bfs": bfs,
+           "divergences": divergences, "violations": violations,
            "wall_s": round(time.time() - t0, 1),
            "schemas": sorted({m[0] for m in meta})}
     _CACHE[key] = res
@@ -446,27 +673,44 @@ def part_result(ctx, pid):
         if key in seen:
             continue
         seen.add(key)
-        script = shrink(v["script"], v["tag"]) if len(seen) <= 6 else v["script"]
+        # an exploration script is already minimal (shortest path + the one failing edge)
+        script = shrink(v["script"], v["tag"]) if len(seen) <= 6 and not v.get("bfs") else v["script"]
         vios.append({"tag": "oracle", "signature": sig,
                      "header": {"kind": "history", "what": v["text"][:300], "schema": v["schema"]},
                      "body": script})
     divs = [{"input": "%s: %s" % (d["schema"], " / ".join(d["script"][-3:])[:400]), "impl": d["impl"],
              "model": d["model"]} for d in r["divergences"][:10]]
+    b = r["bfs"]
+    bfs_summary = {k: b[k] for k in ("max_handles", "depth", "states", "expanded", "edges", "per_depth", "complete_on",
+                                     "scripts", "steps", "divergences", "violations", "wall_s")}
     return {
         "ok": not vios and not r["divergences"],
         "evaluations": r["steps"],
         "distinct_nontrivial": r["distinct_raw_states"],
-        "rule": "operation histories on schemas %s; after every operation the call result, the full structural "
-                "observation (every public crate / membership query on every live crate, every handle of a removed "
-                "crate, every track, every probe name) and the raw rows of Crate/CrateParentList/CrateHierarchy/"
-                "CrateTrackList/Track are compared between the real library and the Lean Model, and the Spec oracle "
-                "judges the real library's answers; evaluations = observed steps, non-trivial = distinct raw table "
-                "states reached by the real library" % ",".join(r["schemas"]),
+        "rule": "two streams on schemas %s.  (1) bounded-exhaustive exploration: the Lean driver searches the state "
+                "space of the Model breadth first over distinct states (raw rows + handle bindings; at most %d crate "
+                "handles, names a / b / empty / x;y, depth per schema %s; depth %d expands EVERY reachable state) and "
+                "from every expanded state EVERY operation of the alphabet (create root/sub, rename, set_parent to "
+                "every handle or none, remove; handles of removed crates included) is run on the real library from a "
+                "restored image of that state: %d edges from %d expanded states.  (2) random operation histories "
+                "(forest / deep / membership / mixed profiles).  In both, after every operation the call result, the "
+                "full structural observation (every public crate / membership query on every live crate, every "
+                "handle of a removed crate, every track, every probe name) and the raw rows of Crate/CrateParentList/"
+                "CrateHierarchy/CrateTrackList/Track are compared between the real library and the Lean Model, and "
+                "the Spec oracle judges the real library's answers; evaluations = observed steps, non-trivial = "
+                "distinct raw table states reached by the real library" % (
+                    ",".join(r["schemas"]), b["max_handles"],
+                    ",".join("%s:%d" % (k.replace("schema_", ""), v) for k, v in b["depth"].items()),
+                    BFS_CLOSURE_DEPTH, b["edges"], b["expanded"]),
         "samples": [],
-        "histograms": {"generated_ops": r["hist"], "impl_outcomes": r["outcomes"]},
+        "histograms": {"generated_ops": r["hist"], "impl_outcomes": r["outcomes"],
+                       "bfs_impl_outcomes": r["bfs_outcomes"]},
         "divergences": divs,
         "violations": vios,
-        "extra": {"scripts": r["scripts"], "wall_s": r["wall_s"]},
+        "exhaustive": {"bounded_exhaustive_bfs": bfs_summary},
+        "extra": {"scripts": r["scripts"], "random_scripts": r["random_scripts"], "random_steps": r["random_steps"],
+                  "bfs_steps": b["steps"], "bfs_processes": b["processes"],
+                  "bfs_wall_s_per_schema": b["wall_s_per_schema"], "wall_s": r["wall_s"]},
     }
 
 
